@@ -5,7 +5,7 @@
    row pointer never written, NULL dereference. *)
 From Coq Require Import Floats.
 From mathcomp Require Import all_ssreflect.
-From LS Require Import NumOps F64Ops Containers ContSpec.
+From LS Require Import NumOps F64Ops Containers ContSpec ContSpec2.
 Set Implicit Arguments. Unset Strict Implicit. Unset Printing Implicit Defensive.
 
 Section AnyNumbers.
@@ -22,6 +22,21 @@ Proof. exact: vector_histories. Qed.
 Theorem C14_matrix_histories (h : seq (@mop K)) m r c A : (forall o, List.In o h -> mop_wf o) -> mrep m r c A ->
   exists2 m', mrun m h = ROk m' & let: (r', c', A') := foldl mop_spec (r, c, A) h in mrep m' r' c' A'.
 Proof. exact: matrix_histories. Qed.
+(* the same with EVERY single-matrix operation: fill, resize, delete row / column (position in
+   range, checked along the history), set, append row / column *)
+Theorem C14_matrix_histories_all (h : seq (@mop2 K)) m r c A : valid_from (r, c, A) h -> mrep m r c A ->
+  exists2 m', mrun2 m h = ROk m' & let: (r', c', A') := foldl mop2_spec (r, c, A) h in mrep m' r' c' A'.
+Proof. exact: matrix_histories2. Qed.
+(* MatrixCopy: the destination becomes a copy of the source whatever it held before *)
+Theorem C14_matrix_copy s rs cs As d rd cd Ad : mrep s rs cs As -> mrep d rd cd Ad ->
+  exists2 m', m_copy s d = ROk m' & mrep m' rs cs As.
+Proof. exact: m_copy_ok. Qed.
+Theorem C14_delete_row m r c A row : mrep m r c A -> row < r ->
+  exists2 m', m_delrow m row = ROk m' & mrep m' r.-1 c (take row A ++ drop row.+1 A).
+Proof. exact: m_delrow_ok. Qed.
+Theorem C14_delete_column m r c A col : mrep m r c A -> col < c ->
+  exists2 m', m_delcol m col = ROk m' & mrep m' r c.-1 (map (fun row => take col row ++ drop col.+1 row) A).
+Proof. exact: m_delcol_ok. Qed.
 Theorem C14_new_vector n : exists2 v, v_new n = ROk v & vrep v (nseq n k0) /\ size (vdata v) = n.
 Proof. exact: v_new_ok. Qed.
 Theorem C14_new_matrix r c : exists2 m, m_new r c = ROk m & mrep m r c (nseq r (nseq c k0)).
@@ -81,6 +96,10 @@ Proof. by vm_compute. Qed.
 
 Print Assumptions C14_vector_histories.
 Print Assumptions C14_matrix_histories.
+Print Assumptions C14_matrix_histories_all.
+Print Assumptions C14_matrix_copy.
+Print Assumptions C14_delete_row.
+Print Assumptions C14_delete_column.
 Print Assumptions C14_new_vector.
 Print Assumptions C14_new_matrix.
 Print Assumptions C14_vector_copy.
